@@ -54,11 +54,18 @@ def pearson_matrix(Q, R):
 
 
 def expected_subset_sizes(factor, n):
-    """max(1, round(f*n)); both neighbours allowed at an exact .5"""
+    """
+    max(1, round(f*n)) with "round" as Python and numpy define it on the
+    double product f*n (an exact .5 goes to the even neighbour).  When the
+    product is within 1e-9 of a .5 without being one, both neighbours are
+    allowed (different but equally valid ways of forming the product).
+    """
     x = factor * n
     lo = int(np.floor(x))
     frac = x - lo
-    if abs(frac - 0.5) < 1e-9:
+    if frac == 0.5:
+        cands = {int(round(x))}
+    elif abs(frac - 0.5) < 1e-9:
         cands = {lo, lo + 1}
     else:
         cands = {int(np.floor(x + 0.5))}
@@ -262,8 +269,10 @@ def _check_visit(w, red, vis, ch, Xn, qcol, rcol, means, by_id,
     n = len(qg)
     sizes = expected_subset_sizes(vis['factor'], n)
     x = vis['factor'] * n
-    if abs((x - np.floor(x)) - 0.5) < 1e-9:
-        bump(dontcare, 'round_half_cases')
+    if (x - np.floor(x)) == 0.5:
+        bump(counters, 'round_half_cases_checked')
+    elif abs((x - np.floor(x)) - 0.5) < 1e-9:
+        bump(dontcare, 'round_near_half_cases')
     rows = vis['rows']
     cells = [ch['cell_ids'][r] for r in rows]
     grow = [ch['r0'] + r for r in rows]
